@@ -53,7 +53,7 @@ Proof. intros H1 H2. rewrite <- (app_nil_r t). eapply wexec_trans; eauto. Qed.
 Lemma step_read_gen_incl s p : In p (step_read_gen false s) -> In p (step_read s).
 Proof.
   unfold step_read, step_read_gen. destruct (rpc s); try (intros H; exact H).
-  simpl. destruct (length (rx s) <? cap); simpl; intros H; [exact H|contradiction].
+  destruct (length (rx s) <? cap); simpl; intros H; [exact H|contradiction].
 Qed.
 
 Lemma sys_next_gen_incl s p : In p (sys_next_gen false s) -> In p (sys_next s).
@@ -127,22 +127,60 @@ Proof.
 Qed.
 
 (* ---- successors computed by the checker are reached by the machine ---- *)
-Lemma tau_succs_reach s s' : In s' (tau_succs s) -> wexec s [] s'.
+(* vexec s tr s': some execution from s to s' whose visible part is tr *)
+Definition vexec (s : state) (tr : list label) (s' : state) : Prop :=
+  exists h, visible h = tr /\ wexec s h s'.
+
+Lemma visible_app a b : visible (a ++ b) = visible a ++ visible b.
+Proof. unfold visible. apply filter_app. Qed.
+
+Lemma vexec_refl s : vexec s [] s.
+Proof. exists []. split; [reflexivity|apply wexec_nil]. Qed.
+
+Lemma vexec_trans a t1 b t2 c : vexec a t1 b -> vexec b t2 c -> vexec a (t1 ++ t2) c.
 Proof.
-  unfold tau_succs. rewrite in_map_iff. intros [[l s1] [E H]]. simpl in E. subst s'.
-  apply filter_In in H. destruct H as [H T]. simpl in T. apply is_tau_eq in T. subst l.
-  eapply wexec_tau; [left; apply sys_next_gen_incl; exact H|apply norm_reach].
+  intros [h1 [E1 H1]] [h2 [E2 H2]]. exists (h1 ++ h2). split.
+  - rewrite visible_app, E1, E2. reflexivity.
+  - eapply wexec_trans; eauto.
 Qed.
 
-Lemma vis_succs_reach l s s' : l <> Tau -> In s' (vis_succs l s) -> wexec s [l] s'.
+Lemma vexec_snoc_hidden a t b c : vexec a t b -> vexec b [] c -> vexec a t c.
+Proof. intros H1 H2. rewrite <- (app_nil_r t). eapply vexec_trans; eauto. Qed.
+
+Lemma wexec_vexec_nil s s' : wexec s [] s' -> vexec s [] s'.
+Proof. intros H. exists []. split; [reflexivity|exact H]. Qed.
+
+Lemma hidden_cases l : is_hidden l = true -> l = Tau \/ exists e, l = LEnq e.
+Proof. destruct l; simpl; intros H; try discriminate; [left; reflexivity|right; eexists; reflexivity]. Qed.
+
+Lemma tau_succs_reach s s' : In s' (tau_succs s) -> vexec s [] s'.
 Proof.
-  intros Hl. unfold vis_succs. rewrite in_app_iff. intros [H|H].
+  unfold tau_succs. rewrite in_map_iff. intros [[l s1] [E H]]. simpl in E. subst s'.
+  apply filter_In in H. destruct H as [H T]. simpl in T.
+  apply sys_next_gen_incl in H.
+  eapply vexec_snoc_hidden; [|apply wexec_vexec_nil, norm_reach].
+  apply hidden_cases in T. destruct T as [T|[e T]]; subst l.
+  - exists []. split; [reflexivity|]. eapply wexec_tau; [left; exact H|apply wexec_nil].
+  - exists [LEnq e]. split; [reflexivity|].
+    eapply wexec_vis; [discriminate|left; exact H|apply wexec_nil].
+Qed.
+
+Lemma vis_succs_reach l s s' : is_hidden l = false -> In s' (vis_succs l s) -> vexec s [l] s'.
+Proof.
+  intros Hl.
+  assert (Hnt : l <> Tau) by (intros E; subst l; discriminate).
+  assert (Hv : visible [l] = [l]) by (unfold visible; simpl; rewrite Hl; reflexivity).
+  unfold vis_succs. rewrite in_app_iff. intros [H|H].
   - rewrite in_map_iff in H. destruct H as [[l1 s1] [E H]]. simpl in E. subst s'.
     apply filter_In in H. destruct H as [H T]. simpl in T. apply label_eqb_eq in T. subst l1.
-    eapply wexec_vis; [exact Hl|left; apply sys_next_gen_incl; exact H|apply norm_reach].
+    eapply vexec_snoc_hidden; [|apply wexec_vexec_nil, norm_reach].
+    exists [l]. split; [exact Hv|].
+    eapply wexec_vis; [exact Hnt|left; apply sys_next_gen_incl; exact H|apply wexec_nil].
   - destruct (env_step l s) as [s0|] eqn:E; [|contradiction].
     destruct H as [H|[]]. subst s'.
-    eapply wexec_vis; [exact Hl|right; exact E|apply norm_reach].
+    eapply vexec_snoc_hidden; [|apply wexec_vexec_nil, norm_reach].
+    exists [l]. split; [exact Hv|].
+    eapply wexec_vis; [exact Hnt|right; exact E|apply wexec_nil].
 Qed.
 
 (* ---- set bookkeeping never invents states ---- *)
@@ -187,53 +225,54 @@ Proof.
   eapply tau_close_aux_inv; eauto.
 Qed.
 
-Lemma run_reach fuel tr : Forall (fun l => l <> Tau) tr ->
-  forall cur x, In x (run fuel tr cur) -> exists y, In y cur /\ wexec y tr x.
+Lemma run_reach fuel tr : Forall (fun l => is_hidden l = false) tr ->
+  forall cur x, In x (run fuel tr cur) -> exists y, In y cur /\ vexec y tr x.
 Proof.
   induction tr as [|l tr IH]; intros Hnt cur x Hx; cbn [run] in Hx.
-  - exists x. split; [exact Hx|apply wexec_nil].
+  - exists x. split; [exact Hx|apply vexec_refl].
   - inversion Hnt as [|? ? Hl Hnt']; subst.
     apply IH in Hx; [|exact Hnt']. destruct Hx as [z [Hz Hzx]].
-    set (P := fun z => exists y, In y cur /\ wexec y [l] z).
+    set (P := fun z => exists y, In y cur /\ vexec y [l] z).
     assert (HP : P z).
     { eapply (tau_close_inv P) with (fuel := fuel); [| |exact Hz].
       - intros s s' [y [Hy Hys]] Hs'. exists y. split; [exact Hy|].
-        eapply wexec_snoc_taus; [exact Hys|apply tau_succs_reach; exact Hs'].
+        eapply vexec_snoc_hidden; [exact Hys|apply tau_succs_reach; exact Hs'].
       - intros w Hw. apply in_flat_map in Hw. destruct Hw as [y [Hy Hyw]].
         exists y. split; [exact Hy|apply vis_succs_reach; assumption]. }
     destruct HP as [y [Hy Hyz]]. exists y. split; [exact Hy|].
-    change (l :: tr) with ([l] ++ tr). eapply wexec_trans; eauto.
+    change (l :: tr) with ([l] ++ tr). eapply vexec_trans; eauto.
 Qed.
 
 Definition trace_budget (tr : list label) : nat := fold_right (fun l n => label_cost l + n) 0 tr.
 
-Lemma after_reach fuel tr : Forall (fun l => l <> Tau) tr ->
-  forall x, In x (after fuel tr) -> wexec (init (trace_budget tr)) tr x.
+Lemma after_reach fuel tr : Forall (fun l => is_hidden l = false) tr ->
+  forall x, In x (after fuel tr) -> vexec (init (trace_budget tr)) tr x.
 Proof.
   intros Hnt x Hx. unfold after in Hx. apply run_reach in Hx; [|exact Hnt].
   destruct Hx as [y [Hy Hyx]].
   set (s0 := init (trace_budget tr)) in *.
-  assert (H0 : wexec s0 [] y).
-  { eapply (tau_close_inv (fun z => wexec s0 [] z)) with (fuel := fuel); [| |exact Hy].
-    - intros s s' Hs Hs'. eapply wexec_snoc_taus; [exact Hs|apply tau_succs_reach; exact Hs'].
-    - intros w [Hw|[]]. subst w. apply wexec_nil. }
-  change tr with ([] ++ tr). eapply wexec_trans; eauto.
+  assert (H0 : vexec s0 [] y).
+  { eapply (tau_close_inv (fun z => vexec s0 [] z)) with (fuel := fuel); [| |exact Hy].
+    - intros s s' Hs Hs'. eapply vexec_snoc_hidden; [exact Hs|apply tau_succs_reach; exact Hs'].
+    - intros w [Hw|[]]. subst w. apply vexec_refl. }
+  change tr with ([] ++ tr). eapply vexec_trans; eauto.
 Qed.
 
-Lemma no_tau_forall tr : existsb is_tau tr = false -> Forall (fun l => l <> Tau) tr.
+Lemma no_hidden_forall tr : existsb is_hidden tr = false -> Forall (fun l => is_hidden l = false) tr.
 Proof.
-  induction tr as [|l tr IH]; simpl; intros H; constructor.
-  - intros E. subst l. simpl in H. discriminate.
-  - apply IH. apply orb_false_iff in H. tauto.
+  induction tr as [|l tr IH]; simpl; intros H; constructor; apply orb_false_iff in H; [tauto|].
+  apply IH. tauto.
 Qed.
 
-(* Soundness: an accepted trace is a trace of the machine. *)
+(* Soundness: an accepted trace is the visible part of a trace of the machine. *)
 Theorem accepts_sound fuel tr :
-  accepts fuel tr = true -> exists s, wexec (init (trace_budget tr)) tr s.
+  accepts fuel tr = true ->
+  exists tr' s, visible tr' = tr /\ wexec (init (trace_budget tr)) tr' s.
 Proof.
-  unfold accepts. destruct (existsb is_tau tr) eqn:E; [discriminate|]. intros H.
+  unfold accepts. destruct (existsb is_hidden tr) eqn:E; [discriminate|]. intros H.
   destruct (after fuel tr) as [|x r] eqn:A; [simpl in H; discriminate|].
-  exists x. apply (after_reach fuel); [apply no_tau_forall; exact E|]. rewrite A. left. reflexivity.
+  destruct (after_reach fuel tr (no_hidden_forall tr E) x) as [h [Hv Hw]]; [rewrite A; left; reflexivity|].
+  exists h, x. split; assumption.
 Qed.
 
 (* The hypothesis is satisfiable: a complete session (Close after registration). *)
